@@ -40,6 +40,7 @@ type TxSpec struct {
 	MetaFrames int   `json:"mframes"`   // >=1 (ignored when NoMeta)
 	Pad        int   `json:"pad"`       // extra instruction-data bytes
 	MetaPad    int   `json:"mpad"`      // extra incompressible log bytes in metadata
+	V0         bool  `json:"v0"`        // versioned (v0) message without address-table lookups
 	SigPrefix  int   `json:"sigprefix"` // when > 0: force the first two signature bytes to uint16(SigPrefix-1), little endian
 }
 
@@ -356,6 +357,9 @@ func (b *builder) tx(bs BlockSpec, ts TxSpec, pos int) (*TxTruth, error) {
 			RecentBlockhash: solana.HashFromBytes(det(seed, "bh", int(bs.Slot), 32)),
 			Instructions:    []solana.CompiledInstruction{{ProgramIDIndex: uint16(len(keys) - 1), Accounts: idx, Data: data}},
 		},
+	}
+	if ts.V0 {
+		tx.Message.SetVersion(solana.MessageVersionV0)
 	}
 	txb, err := tx.MarshalBinary()
 	if err != nil {
